@@ -161,7 +161,12 @@ class Runner:
                 if res != "ok":
                     raise RuntimeError("timeline call failed inside callback: " + res)
             if out == "exc":
-                raise RuntimeError("callback failed")
+                # any exception class a user callback may raise (chosen deterministically from the item): the ones the
+                # library itself catches around a callback for other reasons (ValueError / TypeError from signature
+                # inspection, KeyError / AttributeError from look-ups) must be contained like every other
+                classes = (RuntimeError, ValueError, TypeError, KeyError, AttributeError, ZeroDivisionError, IndexError,
+                           OSError, AssertionError, LookupError, ArithmeticError, NotImplementedError)
+                raise classes[(len(ops) * 5 + sum(len(o) for o in ops)) % len(classes)]("callback failed")
             if out == "stop":
                 raise StopIteration
         # user callbacks come in every callable shape: plain function, lambda, functools.partial,
